@@ -385,6 +385,53 @@ def conservation(op: int, a1: int, m1: int, a2: int, m2: int, crash: bool, t: in
             w.close()
 
 
+def replay_like_fresh_push(a1: int, m1: int, swept: bool, t: int) -> bool:
+    """
+    pre: 0 <= a1 <= 12 and 1 <= m1 <= 12 and 0 <= t <= 100000
+    post: _
+    """
+    # A message that went to the DLQ (by an explicit move, or by the expiry sweep) and is replayed is back in the
+    # queue like a freshly pushed one: every delivery-relevant column of its row (attempts, max_attempts,
+    # locked_until, deliverable now) equals that of a message pushed at the same instant.
+    with hx.Path("replay_like_fresh_push") as P:
+        sw = hx.decide(swept)
+        w = _world([_row(1, T0, False, 0, a1, m1, 0, "x")])
+        try:
+            symdb.CLOCK.now = T0 + 5000 + t
+            q = w.queue
+            if sw:
+                n = q.check_and_move_expired()
+                if not bool(n):
+                    return True  # attempts below the limit: the sweep leaves the row alone
+            else:
+                q.move_to_dlq(1, "boom")
+            with hx.native():
+                dl = w.table("queue_messages_dlq")
+            if len(dl) != 1:
+                return P.fail("C08/replay/not_in_dlq_after_move", {"dlq": len(dl)})
+            P.reached("moved by %s" % ("sweep" if sw else "move_to_dlq"), {"by": "sweep" if sw else "move_to_dlq"})
+            q.replay_dlq(dl[0]["id"])
+            q.push(StartStage(execution_id="e1", stage_id="fresh", created_at=_CREATED))
+            with hx.native():
+                rows = w.table("queue_messages")
+                left = w.table("queue_messages_dlq")
+            if len(rows) != 2 or left:
+                return P.fail("C08/replay/not_exactly_one_copy", {"queue": len(rows), "dlq": len(left)})
+            rep = next(r for r in rows if "fresh" not in r["payload"])
+            fresh = next(r for r in rows if "fresh" in r["payload"])
+            for col in ("attempts", "max_attempts", "locked_until"):
+                a_, b_ = rep[col], fresh[col]
+                same = (a_ is None and b_ is None) or (a_ is not None and b_ is not None and bool(a_ == b_))
+                if not same:
+                    return P.fail("C08/replay/replayed_row_differs_from_fresh_push/%s" % col, {"column": col, "replayed": str(a_), "fresh": str(b_)})
+            m = q.poll_one()
+            if m is None:
+                return P.fail("C08/replay/replayed_message_not_deliverable", {})
+            return True
+        finally:
+            w.close()
+
+
 def dlq_race(k: int, other: int, a1: int) -> bool:
     """
     pre: 1 <= k <= 12 and 3 <= a1 <= 12
@@ -442,6 +489,7 @@ PLAN = [
     ("ack_resched_extend", "quick", 280),
     ("conservation", "quick", 280),
     ("op_sequence2", "quick", 280),
+    ("replay_like_fresh_push", "quick", 120),
     ("op_sequence4", "thorough", 3000),
 ]
 
